@@ -110,6 +110,10 @@ pub fn generate(tier: &str, seed: u64, out: &Path, nshards: usize, replay: Optio
         ("hyp_registry_of", "hyp_registry_of"),
         ("hyp_prelude_nodocs", "hyp_prelude_nodocs"),
         ("hyp_identity_duplicates", "hyp_identity_duplicates"),
+        ("hyp_registry_of1", "hyp_registry_of1"),
+        ("hyp_labels_agree", "hyp_labels_agree"),
+        ("hyp_all_cf1", "hyp_all_cf1"),
+        ("hyp_cf1_only", "hyp_cf1_only"),
     ];
     let mut shards = Shards::new(out, nshards, HEADER, "c05_case", &evals);
     let mut meta = Meta::new("C05");
@@ -129,13 +133,16 @@ pub fn generate(tier: &str, seed: u64, out: &Path, nshards: usize, replay: Optio
         spec.ops.extend(bit_order_subs(&reg));
         let o = observe_tg(&reg, &spec);
         let term = format!(
-            "(mk_c05 (mk_program {} {}) {} {} {})",
+            "(mk_c05 (mk_program {} {}) {} {} {} {})",
             clist(p.defs.iter().map(cdef)),
             clist(p.roots.iter().map(csrc)),
             clist(insts.iter().map(|(d, a)| format!("({}%nat, {})", d, clist(a.iter().map(csrc))))),
             // per id: the closed source type the entry stands for, in the normal form of the Coq
             // source model (`canon`); None = bit-order marker
             clist(labels.iter().map(|l| copt(l.as_ref().map(|x| csrc(&reggen::canon(x)))))),
+            // the same labels as written (the type the entry was first registered for): the Coq side puts
+            // them into the normal form of scale-info's real type identity (`ident1`, Model/Program1.v)
+            clist(labels.iter().map(|l| copt(l.as_ref().map(|x| csrc(x))))),
             coq_case(stream, &reg, &spec, &o, &None)
         );
         let generic = p.defs.iter().any(|d| d.params.iter().any(|(_, s)| !*s));
